@@ -2,6 +2,9 @@
 // test whose goroutines are explored: Lock is a scheduling point that is enabled
 // only while the lock is free (so blocking is modelled, never spun on), and
 // lock/unlock carry the happens-before edge the race detector expects.
+// Unlock is not a scheduling point: a preemption right after an unlock is
+// equivalent to one before the thread's next visible operation, and the race
+// oracle is happens-before based, not interleaving based.
 // Outside a controlled execution the operations are no-ops (the worker is
 // single-threaded there).
 package vsync
@@ -82,7 +85,6 @@ func (m *Mutex) Unlock() {
 	}
 	vsched.Release(unsafe.Pointer(&m.hb))
 	m.locked = false
-	vsched.Point("unlock", always)
 }
 
 func always() bool { return true }
@@ -92,7 +94,11 @@ type RWMutex struct {
 	writer  bool
 	readers int
 	owner   *vsched.Exec
-	hb      int
+	// happens-before edges as sync.RWMutex has them: a writer's unlock orders
+	// later lockers of both kinds (wHB); readers' unlocks order later writers
+	// only (rHB). There is no reader->reader edge.
+	wHB int
+	rHB int
 }
 
 //go:norace
@@ -121,7 +127,8 @@ func (m *RWMutex) Lock() {
 	}
 	m.fresh()
 	m.writer = true
-	vsched.Acquire(unsafe.Pointer(&m.hb))
+	vsched.Acquire(unsafe.Pointer(&m.wHB))
+	vsched.Acquire(unsafe.Pointer(&m.rHB))
 }
 
 //go:norace
@@ -130,9 +137,8 @@ func (m *RWMutex) Unlock() {
 		return
 	}
 	m.fresh()
-	vsched.Release(unsafe.Pointer(&m.hb))
+	vsched.Release(unsafe.Pointer(&m.wHB))
 	m.writer = false
-	vsched.Point("wunlock", always)
 }
 
 //go:norace
@@ -146,7 +152,7 @@ func (m *RWMutex) RLock() {
 	}
 	m.fresh()
 	m.readers++
-	vsched.Acquire(unsafe.Pointer(&m.hb))
+	vsched.Acquire(unsafe.Pointer(&m.wHB))
 }
 
 //go:norace
@@ -155,11 +161,10 @@ func (m *RWMutex) RUnlock() {
 		return
 	}
 	m.fresh()
-	vsched.Release(unsafe.Pointer(&m.hb))
+	vsched.Release(unsafe.Pointer(&m.rHB))
 	if m.readers > 0 {
 		m.readers--
 	}
-	vsched.Point("runlock", always)
 }
 
 func (m *RWMutex) RLocker() Locker { return rlocker{m} }
